@@ -282,9 +282,57 @@ pub proof fn lemma_fmt_no_overflow(picos: int, multiple: int, sig: int, scale: T
 """
 
 
+THROUGHPUT_SPEC = r"""
+// what DisplayThroughput::fmt passes to scale_value as the prefix system
+pub struct Picked { pub format: BytesFormat }
+"""
+
+
+def throughput_file(S: Sources):
+    """Which prefix system (1000^k / 1024^k) a throughput is scaled with: the configured byte format for byte
+    counters, always decimal for chars / cycles / items. Region of DisplayThroughput::fmt from `let format = match`
+    to the scale_value call; the call itself is replaced by a carrier of its second argument."""
+    import re
+    uf = S(UFMT)
+    cm = S("src/counter/mod.rs")
+    ac = S("src/counter/any_counter.rs")
+    secs = []
+    secs.append(code_item(cm, cm.find_item("enum", "BytesFormat"), keep_attrs=("derive",),
+                          subst=[(r"#\[derive\([^\]]*\)\]", "#[derive(Clone, Copy, PartialEq, Eq, Structural)]", 1)]))
+    secs.append(code_item(ac, ac.find_item("enum", "KnownCounterKind"), keep_attrs=("derive",),
+                          subst=[(r"#\[derive\([^\]]*\)\]", "#[derive(Clone, Copy, PartialEq, Eq, Structural)]", 1)]))
+    secs.append(code_item(uf, uf.find_item("enum", "ScaleFormat"), keep_attrs=("derive",),
+                          subst=[(r"#\[derive\([^\]]*\)\]", "#[derive(Clone, Copy)]", 1)]))
+    secs.append(ghost("carrier", THROUGHPUT_SPEC))
+    # the helper ScaleFormat::bytes_format, if the code (still) has it
+    try:
+        f_bf = uf.find_fn("bytes_format", impl=r"impl ScaleFormat\b")
+        secs += wrap_impl("impl ScaleFormat", [code_fn(uf, f_bf, "ScaleFormat::bytes_format", ret="r", clauses="""
+            ensures r == (match self { ScaleFormat::Bytes(f) => f, ScaleFormat::BytesThroughput(f) => f, _ => BytesFormat::Decimal }),
+        """)])
+    except rsx.LostAnchor:
+        pass
+    f_fmt = uf.find_fn("fmt", impl=r"impl fmt::Display for DisplayThroughput")
+    txt, line = rsx.region(f_fmt, r"let format = match self \. counter \. kind \{", r"let \( val , scale \) = scale_value \([^;]*\) ;")
+    txt, k = re.subn(r"let\s*\(\s*val\s*,\s*scale\s*\)\s*=\s*scale_value\(\s*count_per_sec\s*,\s*([^;]*?)\s*\)\s*;", r"let picked = Picked { format: \1 };", txt)
+    if k != 1:
+        raise rsx.LostAnchor(f"{UFMT}: DisplayThroughput::fmt: scale_value call matched {k} != 1")
+    txt, k = re.subn(r"self\s*\.\s*counter\s*\.\s*kind", "kind", txt)
+    txt = re.sub(r"self\s*\.\s*bytes_format", "bytes_format", txt)
+    core = Section(name="<DisplayThroughput as Display>::fmt (prefix-system selection, region)", kind="code", origin=f"{UFMT}:{line}",
+                   text="pub fn throughput_prefix_system(kind: KnownCounterKind, bytes_format: BytesFormat) -> (r: Picked)\n"
+                        "    ensures r.format == (if kind == KnownCounterKind::Bytes { bytes_format } else { BytesFormat::Decimal }),\n{\n" + txt + "\npicked\n}")
+    core.dropped = ["region of DisplayThroughput::fmt: `let format = match ..` .. the scale_value call; self.counter.kind / self.bytes_format -> parameters; scale_value(count_per_sec, X) -> carrier of X"]
+    secs.append(core)
+    return VerusFile("c18_throughput", secs)
+
+
 def build(S: Sources) -> Unit:
     errs = []
     vfiles = guarded(lambda: verus_files(S), errs, [])
+    tf = guarded(lambda: throughput_file(S), errs, None)
+    if tf is not None:
+        vfiles = vfiles + [tf]
     hs = [
         KaniHarness("verif_c18::std_specs", "complete", covers="trusted specs of u128::saturating_pow(10, e) and u32::try_from(usize)"),
         KaniHarness("verif_c18::from_picos_largest_unit", "complete", covers="TimeScale::from_picos, TimeScale::picos"),
